@@ -203,3 +203,50 @@ impl Recorder {
     }
 }
 
+
+/// drive a single worker pool through a schedule [(model worker, action)]: all `threads` workers first arrive at their
+/// worker_start point and are started one by one up to their first schedule point; then each step grants the worker
+/// that the schedule names, provided it is parked at the site `want(action)`. Returns why the schedule could not be followed.
+pub fn drive(rec: &Recorder, threads: usize, schedule: &[(u64, String)], want: &dyn Fn(&str) -> &'static str) -> Option<String> {
+    let to = Duration::from_secs(20);
+    match rec.wait_quiescent(threads, to) {
+        None => return Some("workers did not all arrive at worker_start".into()),
+        Some(parked) => {
+            for (&tid, _) in parked.iter() {
+                rec.grant(tid);
+                if rec.wait_quiescent(threads, to).is_none() {
+                    return Some("worker did not reach its first schedule point".into());
+                }
+            }
+        }
+    }
+    let mut assign: std::collections::HashMap<u64, u64> = std::collections::HashMap::new();
+    for (w, act) in schedule {
+        let parked = match rec.wait_quiescent(threads, to) {
+            Some(p) => p,
+            None => return Some("not quiescent".into()),
+        };
+        let tid = match assign.get(w) {
+            Some(t) => *t,
+            None => {
+                let used: HashSet<u64> = assign.values().copied().collect();
+                match parked.keys().find(|t| !used.contains(t)) {
+                    Some(&t) => {
+                        assign.insert(*w, t);
+                        t
+                    }
+                    None => return Some(format!("no free thread for model worker {}", w)),
+                }
+            }
+        };
+        let site = want(act);
+        if parked.get(&tid) != Some(&site) {
+            return Some(format!("worker {} is at {:?}, schedule wants {}", w, parked.get(&tid), site));
+        }
+        rec.grant(tid);
+        if rec.wait_quiescent(threads, to).is_none() {
+            return Some("granted worker did not come back".into());
+        }
+    }
+    None
+}
